@@ -40,7 +40,10 @@ ItemClauses(e, n) ==
   LET want == T!LogItems(e.boards, e.decs, e.teams_cps, n) IN
   << <<"log-present", e.file.present>>, <<"log-json", e.file.json_ok>>,
      <<"log-count", e.file.nitems = n>>,
-     <<"log-keys", e.file.keys_ok>> >>
+     <<"log-keys", e.file.keys_ok>>,
+     \* whenever a seat was told "End of session" the log on disk was complete
+     <<"log-complete-when-declared-over",
+       "complete_when_declared_over" \in DOMAIN e.file => e.file.complete_when_declared_over>> >>
   \o (IF e.file.json_ok /\ e.file.nitems = n /\ e.file.keys_ok
       THEN [k \in 1..n |->
               LET bad == {f \in SeqRange(e.file.fields) : e.file.items[k][f] # want[k][f]}
@@ -131,6 +134,16 @@ Clauses(e) ==
                              d == FirstDiff(SubSeq(got, 1, IF Len(got) < Len(want) THEN Len(got)
                                                            ELSE Len(want)), want)
                          IN <<"stream-partial-" \o SeatTag(s - 1) \o "@" \o ToString(d), d = 0>>]
+                 ELSE <<>>)
+             \* whatever went wrong: no seat was ever sent a line other than the
+             \* one it was entitled to at that position
+             \o (IF DecsComplete(e, T!LastStarted(e.decs) - 1)
+                 THEN [s \in 1..4 |->
+                         LET want == T!PartialServerStream(s - 1, e.boards, e.decs, e.teams)
+                             got == e.s2c[s]
+                             n == IF Len(got) < Len(want) THEN Len(got) ELSE Len(want)
+                             d == FirstDiff(SubSeq(got, 1, n), SubSeq(want, 1, n))
+                         IN <<"stream-prefix-" \o SeatTag(s - 1) \o "@" \o ToString(d), d = 0>>]
                  ELSE <<>>)
              \o OfferClauses(e)
         ELSE base
